@@ -39,7 +39,65 @@ def do_comp(ex, node, st, kind):
     if len(gens) != 1:
         raise OutOfReach("comprehension shape (generators)")
     g = gens[0]
-    src = _src(ex, g, st)
+    # ---- generator over a dict view / a set: quantification over the key sort
+    it = g.iter
+    dv = None
+    if isinstance(it, ast.Call) and isinstance(it.func, ast.Attribute) and it.func.attr in ("values", "items", "keys") and not it.args:
+        d = ex.eval(it.func.value, st)
+        if isinstance(d, VOpt):
+            ex.need(st, z3.Not(d.isnone), "AttributeError", it, "None." + it.func.attr)
+            d = d.val
+        if isinstance(d, VDict):
+            dv = (d, it.func.attr)
+    if dv is None:
+        src = _src(ex, g, st)
+        if isinstance(src, VSet):
+            dv = (src, "set")
+        elif isinstance(src, VDict):
+            dv = (src, "keys")
+    else:
+        src = None
+    if dv is not None:
+        d, how = dv
+        c = z3.Const(S.fresh_name("kc"), S.PyStr)
+        dom = d.term[c] if how == "set" else d.keys[c]
+        s2 = State(dict(st.env), st.pc + [dom], st.facts)
+        key = VStr(c)
+        if how in ("set", "keys"):
+            ex.store(g.target, key, s2)
+        else:
+            vk = "real" if d.val is S.Real else ("int" if d.val is S.Int else "float")
+            val = VNum(d.vals[c], vk)
+            ex.store(g.target, VTup([key, val]) if how == "items" else val, s2)
+        saved = list(ex.guards)
+        ex.guards = ex.guards + [dom]
+        try:
+            conds = [ex.truth(ex.eval(cn, s2)) for cn in g.ifs]
+            if kind == "dict":
+                kx = ex.eval(node.key, s2)
+                vx = ex.eval(node.value, s2)
+                if isinstance(kx, VStr) and kx.term.eq(c) and isinstance(vx, VNum):
+                    # {c: f(c, v) for c, v in d.items() if cond}: same keys filtered, values mapped
+                    keep = z3.And(dom, *conds) if conds else dom
+                    nk = z3.Const(S.fresh_name("dkeys"), S.CSetS)
+                    nv = z3.Const(S.fresh_name("dvals"), S.RMapS)
+                    st.facts.append(nk == z3.Lambda([c], keep))
+                    from .core import to_real
+                    st.facts.append(nv == z3.Lambda([c], to_real(vx)))
+                    vsort = S.Real if vx.kind == "real" else (S.Int if vx.kind == "int" else S.Float)
+                    return VDict(nk, nv, S.Real if vsort is S.Int else vsort)
+                raise OutOfReach("dict comprehension shape over dict view")
+            body = ex.eval(node.elt, s2)
+        finally:
+            ex.guards = saved
+        if kind == "gen":
+            return GenSet(c, z3.And(dom, *conds) if conds else dom, body)
+        if kind == "set" and isinstance(body, VStr) and body.term.eq(c):
+            r = z3.Const(S.fresh_name("fset"), S.CSetS)
+            st.facts.append(r == z3.Lambda([c], z3.And(dom, *conds) if conds else dom))
+            ex.card_of(st, r)
+            return VSet(r)
+        raise OutOfReach("list comprehension over a set/dict (order-dependent)")
     # concrete sources: unroll
     if isinstance(src, (VTup, VPyList)):
         items = []
@@ -91,6 +149,13 @@ def do_comp(ex, node, st, kind):
     return materialise(ex, st, GenDesc(src, i, body, rng), "list")
 
 
+class GenSet(S.V):
+    """generator over the members of a set / the entries of a dict: bound variable c, domain, body"""
+
+    def __init__(self, c, dom, body):
+        self.c, self.dom, self.body = c, dom, body
+
+
 class GenDesc(S.V):
     def __init__(self, src, i, body, rng):
         self.src, self.i, self.body, self.rng = src, i, body, rng
@@ -109,6 +174,8 @@ def materialise(ex, st, g: GenDesc, kind):
 
 def b_any(ex, st, node, args, kw):
     (x,) = args
+    if isinstance(x, GenSet):
+        return VBool(z3.Exists([x.c], z3.And(x.dom, ex.truth(x.body))))
     if isinstance(x, GenDesc):
         return VBool(z3.Exists([x.i], z3.And(x.rng, ex.truth(x.body))))
     raise OutOfReach("any() of non-generator")
@@ -116,6 +183,8 @@ def b_any(ex, st, node, args, kw):
 
 def b_all(ex, st, node, args, kw):
     (x,) = args
+    if isinstance(x, GenSet):
+        return VBool(z3.ForAll([x.c], z3.Implies(x.dom, ex.truth(x.body))))
     if isinstance(x, GenDesc):
         return VBool(z3.ForAll([x.i], z3.Implies(x.rng, ex.truth(x.body))))
     raise OutOfReach("all() of non-generator")
